@@ -272,6 +272,219 @@ fn route_mpp_overpay_probe(a: &mut Args) -> String {
 	}
 }
 
+/// route_validity_probe <amount> <max_paths> <max_fee (u64::MAX = none)> <max_cltv> <mpp 0/1> <nfailed> <failed scid>* <nchan> (<kind> <scid> <src> <dst> <base> <prop> <min> <max> <cltv> <cap_msat>)*
+/// Public router API (`find_route`) on a graph described channel by channel; node 0 pays node 1.
+///   kind 0: announced channel, policy given for the direction src -> dst (the reverse direction gets a zero-fee
+///           policy); <cap_msat>/1000 is the announced capacity;
+///   kind 1: a channel of ours (ChannelDetails, src = 0) with <cap_msat> spendable;
+///   kind 2: an unannounced channel src -> payee supplied as a one-hop BOLT 11 route hint.
+/// max_channel_saturation_power_of_half is 0, so a channel may be filled up to its limits.
+/// The returned route is validated against the graph as the property states it. Output: `<#paths> <mask>` (`0 0` when
+/// the router reports failure); mask bits: 1 more paths than allowed, 2 a hop carries less than the channel's
+/// htlc_minimum, 4 a channel carries (jointly over the paths) more than htlc_maximum / its capacity / our spendable
+/// balance, 8 a forwarding node is paid less than its policy requires, 16 an excluded (previously failed) channel
+/// is used, 32 total fees above the limit, 64 total CLTV delta above the limit, 128 a path is not a connected chain
+/// of the described channels from payer to payee, 256 less than the requested amount is delivered, 1024 (with 4) the
+/// router's own debug assertion `used_liquidity_msat <= hop_max_msat` fired inside find_route (dev profile),
+/// 2048 find_route panicked in some other way (dev profile: e.g. the debug assertions of max_final_value_msat).
+fn route_validity_probe(a: &mut Args) -> String {
+	use bitcoin::hashes::Hash;
+	use bitcoin::secp256k1::{PublicKey, Secp256k1, SecretKey};
+	use bitcoin::Network;
+	use lightning::ln::channel_state::{ChannelCounterparty, ChannelDetails, ChannelShutdownState};
+	use lightning::ln::msgs::UnsignedChannelUpdate;
+	use lightning::ln::types::ChannelId;
+	use lightning::routing::gossip::{NetworkGraph, NodeId};
+	use lightning::routing::router::{find_route, PaymentParameters, RouteHint, RouteHintHop, RouteParameters};
+	use lightning::routing::scoring::{ProbabilisticScorer, ProbabilisticScoringDecayParameters, ProbabilisticScoringFeeParameters};
+	use lightning::types::features::{Bolt11InvoiceFeatures, ChannelFeatures, InitFeatures};
+	let (amount, max_paths, max_fee, max_cltv, mpp) = (a.u64(), a.u8(), a.u64(), a.u32(), a.bool());
+	let nfailed = a.usize();
+	let failed: Vec<u64> = (0..nfailed).map(|_| a.u64()).collect();
+	let nchan = a.usize();
+	struct Chan { kind: u8, scid: u64, src: usize, dst: usize, base: u32, prop: u32, min: u64, max: u64, cltv: u16, cap: u64 }
+	let chans: Vec<Chan> = (0..nchan).map(|_| Chan { kind: a.u8(), scid: a.u64(), src: a.usize(), dst: a.usize(), base: a.u32(), prop: a.u32(),
+		min: a.u64(), max: a.u64(), cltv: a.u16(), cap: a.u64() }).collect();
+	let secp = Secp256k1::new();
+	let key = |i: usize| PublicKey::from_secret_key(&secp, &SecretKey::from_slice(&[i as u8 + 1; 32]).unwrap());
+	let g = NetworkGraph::new(Network::Testnet, NoLog);
+	let now = std::time::SystemTime::now().duration_since(std::time::UNIX_EPOCH).unwrap().as_secs();
+	let chain = bitcoin::constants::ChainHash::using_genesis_block(Network::Testnet);
+	let mut first_hops: Vec<ChannelDetails> = Vec::new();
+	let mut hints: Vec<RouteHint> = Vec::new();
+	for c in chans.iter() {
+		match c.kind {
+			0 => {
+				let (x, y) = (NodeId::from_pubkey(&key(c.src)), NodeId::from_pubkey(&key(c.dst)));
+				let (n1, n2) = if x < y { (x, y) } else { (y, x) };
+				g.add_channel_from_partial_announcement(c.scid, Some(c.cap / 1000), now, ChannelFeatures::empty(), n1, n2).unwrap();
+				for forward in [true, false] {
+					let src = if forward { x } else { y };
+					g.update_channel_unsigned(&UnsignedChannelUpdate {
+						chain_hash: chain,
+						short_channel_id: c.scid,
+						timestamp: now as u32,
+						message_flags: 1,
+						channel_flags: if src == n1 { 0 } else { 1 },
+						cltv_expiry_delta: if forward { c.cltv } else { 40 },
+						htlc_minimum_msat: if forward { c.min } else { 0 },
+						htlc_maximum_msat: if forward { c.max } else { c.cap },
+						fee_base_msat: if forward { c.base } else { 0 },
+						fee_proportional_millionths: if forward { c.prop } else { 0 },
+						excess_data: Vec::new(),
+					}).unwrap();
+				}
+			},
+			1 => {
+				#[allow(deprecated)]
+				first_hops.push(ChannelDetails {
+					channel_id: ChannelId::new_zero(),
+					counterparty: ChannelCounterparty {
+						features: InitFeatures::empty(),
+						node_id: key(c.dst),
+						unspendable_punishment_reserve: 0,
+						forwarding_info: None,
+						outbound_htlc_minimum_msat: None,
+						outbound_htlc_maximum_msat: None,
+					},
+					funding_txo: Some(lightning::chain::transaction::OutPoint { txid: bitcoin::Txid::from_slice(&[0; 32]).unwrap(), index: 0 }),
+					funding_redeem_script: None,
+					channel_type: None,
+					short_channel_id: Some(c.scid),
+					outbound_scid_alias: None,
+					inbound_scid_alias: None,
+					channel_value_satoshis: 0,
+					user_channel_id: 0,
+					outbound_capacity_msat: c.cap,
+					next_outbound_htlc_limit_msat: c.cap,
+					next_outbound_htlc_minimum_msat: c.min,
+					next_splice_out_maximum_sat: c.cap / 1000,
+					inbound_capacity_msat: 42,
+					unspendable_punishment_reserve: None,
+					confirmations_required: None,
+					confirmations: None,
+					force_close_spend_delay: None,
+					is_outbound: true,
+					is_channel_ready: true,
+					is_usable: true,
+					is_announced: true,
+					inbound_htlc_minimum_msat: None,
+					inbound_htlc_maximum_msat: None,
+					config: None,
+					feerate_sat_per_1000_weight: None,
+					channel_shutdown_state: Some(ChannelShutdownState::NotShuttingDown),
+					pending_inbound_htlcs: Vec::new(),
+					pending_outbound_htlcs: Vec::new(),
+					current_dust_exposure_msat: None,
+					splice_details: None,
+				});
+			},
+			_ => {
+				hints.push(RouteHint(vec![RouteHintHop {
+					src_node_id: key(c.src),
+					short_channel_id: c.scid,
+					fees: RoutingFees { base_msat: c.base, proportional_millionths: c.prop },
+					cltv_expiry_delta: c.cltv,
+					htlc_minimum_msat: Some(c.min),
+					htlc_maximum_msat: Some(c.max),
+				}]));
+			},
+		}
+	}
+	let mut feats = Bolt11InvoiceFeatures::empty();
+	feats.set_variable_length_onion_required();
+	feats.set_payment_secret_required();
+	if mpp {
+		feats.set_basic_mpp_optional();
+	}
+	let mut params = PaymentParameters::from_node_id(key(1), 0).with_bolt11_features(feats).unwrap()
+		.with_max_path_count(max_paths).with_max_total_cltv_expiry_delta(max_cltv).with_max_channel_saturation_power_of_half(0);
+	if !hints.is_empty() {
+		params = params.with_route_hints(hints).unwrap();
+	}
+	params.previously_failed_channels = failed.clone();
+	let mut rp = RouteParameters::from_payment_params_and_value(params, amount);
+	rp.max_total_routing_fee_msat = if max_fee == u64::MAX { None } else { Some(max_fee) };
+	let scorer = ProbabilisticScorer::new(ProbabilisticScoringDecayParameters::default(), &g, NoLog);
+	let fh: Vec<&ChannelDetails> = first_hops.iter().collect();
+	let found = catch_unwind(AssertUnwindSafe(|| find_route(&key(0), &rp, &g, if fh.is_empty() { None } else { Some(&fh[..]) }, NoLog, &scorer,
+		&ProbabilisticScoringFeeParameters::default(), &[9; 32])));
+	let route = match found {
+		Ok(Ok(r)) => r,
+		Ok(Err(_)) => return "0 0".to_string(),
+		Err(payload) => {
+			// dev profile: the router's own debug assertion that a selected path does not take more from a channel than
+			// the channel's usable maximum (in a release build the over-subscribed route is returned instead)
+			let msg = payload.downcast_ref::<String>().cloned().or_else(|| payload.downcast_ref::<&str>().map(|s| s.to_string())).unwrap_or_default();
+			if msg.contains("used_liquidity_msat <= hop_max_msat") {
+				return format!("0 {}", 4 | 1024);
+			}
+			// any other panic inside find_route on this (legitimate) input
+			return format!("0 {}", 2048);
+		},
+	};
+	let mut mask = 0u32;
+	if route.paths.len() > max_paths as usize {
+		mask |= 1;
+	}
+	let mut joint: std::collections::HashMap<u64, u64> = std::collections::HashMap::new();
+	let (mut delivered, mut fees_total) = (0u64, 0u64);
+	for p in route.paths.iter() {
+		let n = p.hops.len();
+		let carried: Vec<u64> = (0..n).map(|i| p.hops[i..].iter().map(|h| h.fee_msat).sum()).collect();
+		delivered += p.hops[n - 1].fee_msat;
+		fees_total += carried[0] - p.hops[n - 1].fee_msat;
+		let mut at = 0usize;
+		let mut cltv_total = 0u32;
+		for (i, h) in p.hops.iter().enumerate() {
+			let c = match chans.iter().find(|c| c.scid == h.short_channel_id && c.src == at && key(c.dst) == h.pubkey) {
+				Some(c) => c,
+				None => { mask |= 128; break; },
+			};
+			at = c.dst;
+			if carried[i] < c.min {
+				mask |= 2;
+			}
+			*joint.entry(c.scid).or_insert(0) += carried[i];
+			if carried[i] > c.max {
+				mask |= 4;
+			}
+			if failed.contains(&c.scid) {
+				mask |= 16;
+			}
+			if i > 0 {
+				let due = c.base as u64 + (carried[i] as u128 * c.prop as u128 / 1_000_000) as u64;
+				if p.hops[i - 1].fee_msat < due {
+					mask |= 8;
+				}
+			}
+			if i + 1 < n {
+				cltv_total += h.cltv_expiry_delta;
+			}
+			if i + 1 == n && at != 1 {
+				mask |= 128;
+			}
+		}
+		if cltv_total > max_cltv {
+			mask |= 64;
+		}
+	}
+	for c in chans.iter() {
+		if let Some(j) = joint.get(&c.scid) {
+			if *j > c.cap || *j > c.max {
+				mask |= 4;
+			}
+		}
+	}
+	if max_fee != u64::MAX && fees_total > max_fee {
+		mask |= 32;
+	}
+	if delivered < amount {
+		mask |= 256;
+	}
+	format!("{} {}", route.paths.len(), mask)
+}
+
 /// node_announcement_addr_probe <addr_len> <avail> (<kind> <hostname_len>)*: decodes (real
 /// `UnsignedNodeAnnouncement::read_from_fixed_length_buffer`) the byte string
 ///   flen=0 | timestamp | node_id | rgb | alias | addr_len | descriptors... zero padding
@@ -573,6 +786,7 @@ fn dispatch(name: &str, a: &mut Args) -> String {
 		},
 		"route_overpay_probe" => route_overpay_probe(a),
 		"route_mpp_overpay_probe" => route_mpp_overpay_probe(a),
+		"route_validity_probe" => route_validity_probe(a),
 		"channel_config_roundtrip" => {
 			// <prop> <base> <cltv delta> <force close fee> <accept underpaying> <dust kind 0 fixed / 1 multiplier> <dust value>
 			use lightning::util::config::{ChannelConfig, MaxDustHTLCExposure};
